@@ -204,7 +204,7 @@ def table(res):
     # exact engine totals recorded by the callback, one per punched row (the punched TOTMOLE/TOT values carry the
     # speciation's mass-balance residual; they are kept as p_<name> and cross-checked at 1e-6)
     cb = res.get("cb", [])
-    if len(cb) == len(recs) and all(len(c) == 15 for c in cb):
+    if len(cb) == len(recs) and all(len(c) == 22 for c in cb):
         names = ["water", "H", "O", "cb"] + ["m_" + e for e in gt.ELEMENTS]
         for d, c in zip(recs, cb):
             if int(d["cell"]) != c[0]:
@@ -212,6 +212,8 @@ def table(res):
             for k, nm in enumerate(names):
                 d["p_" + nm] = d.get(nm)
                 d[nm] = c[4 + k]
+            for k, e in enumerate(gt.ELEMENTS):
+                d["a_" + e] = c[15 + k]
             d["exact"] = True
     by = {}
     adv = any(d.get("state") == 7.0 for d in recs)
@@ -440,6 +442,9 @@ BAND = {"stretches_over_1e-9_within_band": 0, "max_drift": 0.0, "max_drift_per_s
         "by_speciations": {}}
 
 
+GUARD_HITS = []   # filled by oracle_inventory: stretches whose balance closes only with the engine-declared MCD additions
+
+
 def oracle_inventory(case, by, cells, shifts, flux=None, kstep=1, hist=None, start=0):
     """conservation: flux=None → closed column, inventory constant; flux=(inflow cell, outflow cell) → per step
     inventory(t) = inventory(t−1) + dissolved(inflow solution) − dissolved(outflow cell at t−1).
@@ -456,20 +461,33 @@ def oracle_inventory(case, by, cells, shifts, flux=None, kstep=1, hist=None, sta
         sc = charge_scale(by, list(by[0])) * len(cells) if name == "cb" else \
             max(abs(inv0), max(abs(f(by[start][c][-1])) for c in cells), max(abs(d[-1].get(q0, 0.0) or 0.0) for d in by[0].values()))
         prev = inv0
+        el = name.split("_", 1)[1] if "_" in name else None
+
+        def added(t):
+            """moles of this element the explicit-MCD guard has added up to the end of step t (engine's own bookkeeping)"""
+            if el not in gt.ELEMENTS or t not in by:
+                return 0.0
+            return max([d.get("a_" + el, 0.0) or 0.0 for ds in by[t].values() for d in ds] + [0.0])
         for t in range(start + 1, shifts + 1):
             if t not in by or any(c not in by[t] for c in cells):
                 return None
             inv = col_inventory(by, t, cells, f)
             exp = prev
             k = (t - start) * kstep
+            tref = start
             if flux is not None:
                 cin, cout = flux
                 q = name if name in QUANT else "m_" + name[4:]
                 exp = prev + by[0][cin][-1][q] - by[t - 1][cout][-1][q]
                 k = kstep
-            if abs(inv - exp) > TOL * max(sc, 1e-300):
-                bad.append((name, t, exp, inv, (inv - exp) / max(sc, 1e-300), k))
+                tref = t - 1
+            addc = added(t) - added(tref) if case.get("mcd") and not case.get("implicit") else 0.0
+            if abs(inv - exp - addc) > TOL * max(sc, 1e-300):
+                bad.append((name, t, exp + addc, inv, (inv - exp - addc) / max(sc, 1e-300), k))
                 break
+            if addc and abs(inv - exp) > TOL * max(sc, 1e-300):
+                # the balance closes only with the moles the engine says it added for negative concentrations
+                GUARD_HITS.append((name, t, exp, inv, addc))
             if flux is not None:
                 prev = inv
     return bad
@@ -532,6 +550,7 @@ def symmetric_plan(plan):
 def direct_oracles(case, res, hist, code_nmix, plan=None):
     """the property statement evaluated on the implementation's own output; returns list of (kind, detail)"""
     out = []
+    del GUARD_HITS[:]
     heads, by = table(res)
     n = case["n"]
     shifts = case["shifts"]
@@ -636,6 +655,23 @@ def direct_oracles(case, res, hist, code_nmix, plan=None):
         bad = oracle_final_state(case, res, by, hist)
         if bad:
             out.append(("oracle-final-state", bad[:3]))
+    if GUARD_HITS:
+        # announced departure: the explicit multicomponent-diffusion step overshot, a concentration went negative and the
+        # engine refilled it ("Negative concentration in MCD: added … moles"); the inventory grows by exactly the moles
+        # it declares (read from its moles_added table); the balance net of them has been judged at 1e-9 above
+        hist["mcd_guard_explained_stretches"] += len(GUARD_HITS)
+        out.append(("finding:mcd-negative-concentration-guard-adds-mass", list(GUARD_HITS[:3])))
+    # precise attribution of the defect "exchange species of an interlayer-off pair diffuse as pore-water solutes":
+    # -interlayer_d on, at least one adjacent pair of mobile cells that both lack a user-defined exchanger (they hold
+    # only the automatic 2e-10 mol X, so find_J switches the interlayer calculation off for that pair), and the engine's
+    # own negative-concentration guard reported that it added moles
+    if case.get("interlayer") and case.get("exch") is not None:
+        ex = case["exch"]
+        off_pair = any(str(i) not in ex and str(i + 1) not in ex for i in range(1, n))
+        if off_pair and "Negative concentration in MCD" in res.get("warn", ""):
+            out = [(("finding:interlayer-off-pair-diffuses-exchange-species", d)
+                    if k in ("oracle-inventory", "oracle-flux-balance", "finding:mcd-negative-concentration-guard-adds-mass") else (k, d))
+                   for k, d in out]
     return out
 
 
